@@ -27,12 +27,12 @@ RULE = ('case = (mesh spec from own generator: line / rectilinear 1-3D uniform+g
         'each with a random history of refined / refined_by) x (geometry: random affine map of either orientation, singular values in [.6,1.8], '
         'plus quadratic/cubic perturbation with Lipschitz constant <= .5 on the normalised domain) x (random sparse polynomial scalar/vector/tensor '
         'field of degree <= 4) x (sample scheme). kinds: pointwise (interior/boundary/interface + same points located on another parametrisation), '
-        'integral (closed forms, refinement invariance, divergence theorem global and element-wise), manifold_bnd (surface operators on boundaries/'
+        'integral (closed forms, refinement invariance, divergence theorem global and element-wise), trimmed (topo.trim by planes/spheres in root or physical coordinates, maxrefine 0-2, on simplex/square/mixed meshes incl. uniformly refined ones: normals on all facets incl. the trimmed group, divergence theorem over the same trimmed topology), manifold_bnd (surface operators on boundaries/'
         'interfaces of a volume mesh), manifold_emb (codimension-1 embedding of a 1-2D mesh), product (per-space operators via spaces=). '
         'non-trivial = at least one identity with a non-constant reference was compared on >=1 point; distinct = hash of '
         '(kind, mesh spec, geometry, field, samples)')
 ASSUMPTIONS = ['the oracle (vlib/c08_poly.py: sparse multivariate polynomials, numpy only) is exact up to rounding; it self-tests at worker start',
-               'geometries are polynomial diffeomorphisms of box-shaped parameter domains; trimmed and periodic topologies and gmsh meshes are not generated',
+               'geometries are polynomial diffeomorphisms of box-shaped parameter domains; periodic topologies and gmsh meshes are not generated; trimmed domains have no closed-form oracle (binned cut positions): exact identities there are facet-local or compare boundary and volume integrals over the same trimmed topology',
                'curvature(), Laplace-Beltrami and integrals over curved embedded manifolds have no closed-form oracle here and are only covered through the identities they are built from',
                'float tolerance: pass <=1e-9*scale, violation >1e-5*scale (vlib.tolerance), scale = magnitude of the monomials of the reference']
 BUDGET_S = {'quick': 110, 'thorough': 1500}
@@ -42,7 +42,7 @@ NCASES = {'quick': 560, 'thorough': 6000}
 if os.environ.get('VERIF_C08_NCASES'):   # development aid only
     NCASES = {k: int(os.environ['VERIF_C08_NCASES']) for k in NCASES}
 CHUNK = 8
-KINDS = ['pointwise', 'pointwise', 'pointwise', 'integral', 'integral', 'manifold_bnd', 'manifold_emb', 'product']
+KINDS = ['pointwise', 'pointwise', 'trimmed', 'integral', 'integral', 'manifold_bnd', 'manifold_emb', 'product']
 TRI_MAXDEG, TET_MAXDEG, TENSOR_MAXDEG = 6, 7, 12
 
 
@@ -391,6 +391,42 @@ def gen_case(seed, i, tier):
         if rng.random() < .5:
             case['alt'], case['alt_kind'] = alt_spec(rng, spec)
         case['wseed'] = int(rng.integers(0, 2**31))
+    elif kind == 'trimmed':
+        n = int(rng.choice([2, 3], p=[.85, .15]))
+        if n == 2:
+            o = str(rng.choice(['simplex', 'simplex', 'unitsquare:triangle', 'unitsquare:triangle', 'unitsquare:mixed', 'unitsquare:square', 'rect']))
+            spec = meshes.random_spec(rng, 2, tier, kinds=[o], history=False)
+        else:
+            if rng.random() < .7:
+                spec = dict(kind='simplex', shape=[1, 1, 1], extent=[round(float(v), 4) for v in rng.uniform(.6, 1.6, 3)], seed=int(rng.integers(0, 2**31)),
+                            amount=0.)
+            else:
+                spec = dict(kind='rect', nodes=[meshes.random_nodes(rng, 2) for _ in range(3)])
+        # only uniform refinement before trimming (trim of a hierarchical topology is not available)
+        if rng.random() < (.4 if n == 2 else .25):
+            spec['history'] = [['refined']]
+        maxrefine = int(rng.choice([0, 1, 2], p=[.2, .5, .3])) if n == 2 else int(rng.choice([0, 1], p=[.4, .6]))
+        lo, hi = spec_extent(spec)
+        # all trimmed pieces are simplices: Gauss limits of the simplex schemes apply everywhere
+        vlim, flim = (TRI_MAXDEG, TENSOR_MAXDEG) if n == 2 else (TET_MAXDEG, TRI_MAXDEG)
+        for _ in range(50):
+            md = int(rng.choice([1, 2, 3], p=[.3, .45, .25]))
+            kF = int(rng.integers(1, 4))
+            if kF * md + (n - 1) * (md - 1) <= flim and (kF - 1) * md + n * (md - 1) <= vlim:
+                break
+        else:
+            md, kF = 1, 1
+        case.update(mesh=spec, geom=geo.gen_geometry(rng, lo, hi, md), maxrefine=maxrefine)
+        shape = str(rng.choice(['plane', 'sphere']))
+        coords = str(rng.choice(['root', 'phys'], p=[.65, .35]))
+        d = rng.normal(size=n)
+        ls = dict(shape=shape, coords=coords, sign=float(rng.choice([-1., 1.])), p0=[round(float(v), 4) for v in rng.uniform(-.35, .35, n)],
+                  a=[round(float(v), 5) for v in d / numpy.linalg.norm(d)], r=round(float(rng.uniform(.4, .85)), 4))
+        case['levelset'] = ls
+        case['facet'] = ['gauss', int(rng.integers(2, 4))]
+        case['field'] = ptojson(geo.random_field(rng, n, random_shape(rng, n)[:1], int(rng.integers(1, 4))))
+        case['F'] = ptojson(geo.random_field(rng, n, (n,), kF))
+        case['wseed'] = int(rng.integers(0, 2**31))
     elif kind == 'manifold_bnd':
         n = int(rng.choice([2, 3], p=[.6, .4]))
         spec = random_mesh(rng, n, tier)
@@ -505,7 +541,7 @@ def execute(case, res):
     try:
         try:
             {'pointwise': run_pointwise, 'integral': run_integral, 'manifold_bnd': run_manifold_bnd,
-             'manifold_emb': run_manifold_emb, 'product': run_product}[case['kind']](case, ck)
+             'manifold_emb': run_manifold_emb, 'product': run_product, 'trimmed': run_trimmed}[case['kind']](case, ck)
         except meshes.Refused as e:
             res.count('refusal/' + str(e)[:80])
             res.count('cases_refused')
@@ -936,6 +972,165 @@ def run_manifold_emb(case, ck):
         ck.cmp('divergence theorem on flat manifold: conormal boundary integral == closed form', 'boundary', [B], [exact], scale=dscale)
 
 
+def levelset_poly(ls, gj, Phi):
+    """oracle: the level set as a Poly in the root-geometry variables.  'root': in the normalised box coordinates
+    xh=(g-c)/h; 'phys': in the physical coordinates x=Phi(g), centred at Phi(p0)."""
+    n = gj['n']
+    c, h = numpy.asarray(gj['c']), numpy.asarray(gj['h'])
+    p0 = numpy.asarray(ls['p0'])
+    if ls['coords'] == 'root':
+        y = [(Poly.var(n, i) - (c[i] + h[i] * p0[i])) * (1. / h[i]) for i in range(n)]
+        rad = ls['r']
+    else:
+        x0 = peval(Phi, (c + h * p0)[None])[0]
+        y = [Phi[i] - float(x0[i]) for i in range(n)]
+        # radius relative to the size of the image of the box
+        A = numpy.asarray(gj['A'])
+        rad = ls['r'] * float(numpy.linalg.svd(A, compute_uv=False).min()) if not geo.geometry_is_identity(gj) else ls['r'] * float(h.min())
+    if ls['shape'] == 'plane':
+        phi = sum((y[i] * float(ls['a'][i]) for i in range(n)), Poly(n))
+    else:
+        phi = Poly.const(n, rad**2) - sum((y[i] * y[i] for i in range(n)), Poly(n))
+    return phi * float(ls['sign']), rad
+
+
+def levelset_nutils(ls, gj, g, x, Phi, rad):
+    'nutils side of the same level set, built from the nutils geometry arrays'
+    n = gj['n']
+    c, h = numpy.asarray(gj['c']), numpy.asarray(gj['h'])
+    p0 = numpy.asarray(ls['p0'])
+    if ls['coords'] == 'root':
+        y = [(g[i] - float(c[i] + h[i] * p0[i])) / float(h[i]) for i in range(n)]
+    else:
+        x0 = peval(Phi, (c + h * p0)[None])[0]
+        y = [x[i] - float(x0[i]) for i in range(n)]
+    if ls['shape'] == 'plane':
+        phi = sum(y[i] * float(ls['a'][i]) for i in range(n))
+    else:
+        phi = rad**2 - sum(y[i] * y[i] for i in range(n))
+    return phi * float(ls['sign'])
+
+
+def run_trimmed(case, ck):
+    """Trimmed topologies: topo.trim(levelset, maxrefine).  The trimmed domain is a polytopal approximation of
+    {levelset>0} (cut positions are binned), so there is no closed form; exact monitors are |n|=1, n.t=0 on every
+    (flat) boundary facet, the cofactor rule on the untrimmed box faces, and the divergence theorem boundary ==
+    volume over the SAME trimmed topology (global and element-wise).  Orientation of the 'trimmed' facets: the
+    outward normal must point towards decreasing level set."""
+    from nutils import function
+    res = ck.res
+    sc = Scene(case['mesh'], case['geom'], case['style'])
+    n = sc.n
+    g, x = sc.g, sc.x
+    ls = case['levelset']
+    phi, rad = levelset_poly(ls, case['geom'], sc.Phi)
+    phi_nut = levelset_nutils(ls, case['geom'], g, x, sc.Phi, rad)
+    try:
+        topo = sc.topo.trim(phi_nut, maxrefine=case['maxrefine'])
+    except NotImplementedError:
+        raise meshes.Refused('trim: NotImplementedError')
+    if len(topo) == 0:
+        res.count('empty/trimmed topology')
+        return
+    bnd = topo.boundary
+    try:
+        ntrim = len(bnd['trimmed'])
+    except KeyError:
+        ntrim = 0
+    if not ntrim:
+        res.count('empty/no trimmed boundary')
+    res.count('trimmed/cases')
+    res.count('trimmed/trimmed facets', ntrim)
+    res.count(f"trimmed/maxrefine{case['maxrefine']}")
+    res.count(f"trimmed/{ls['shape']}-{ls['coords']}")
+    P = pfromjson(case['field'])
+    F = pfromjson(case['F'])
+    f = geo.nutils_parray(P, sc.xs(), case['style'])
+    Fx = geo.nutils_parray(F, sc.xs(), case['style'])
+    Jx, Jg = function.J(x), function.J(g)
+    nrm = function.normal(x)
+    ops = field_ops(P, f, x, n, want=['grad'])
+
+    # ---- pointwise on the whole boundary of the trimmed domain
+    smp = bnd.sample(*case['facet'])
+    V = eval_named(smp, dict(g=g, x=x, n=nrm, Jx=Jx, Jg=Jg, grad=ops['grad'][0]))
+    G, N = V['g'], V['n']
+    X = peval(sc.Phi, G)
+    res.count('points/trimmed-boundary', len(G))
+    ck.cmp('x==Phi(g)', 'boundary(trimmed domain)', V['x'], X, scale=float(pabs(sc.Phi, G).max()), nontrivial=False)
+    ck.cmp('grad', 'boundary(trimmed domain)', V['grad'], ops['grad'][1](X), scale=ops['grad'][2](X))
+    D, cov = check_facet_normals(ck, sc, smp, 'boundary(trimmed domain)', G, N, exact_from_faces=False)
+    ck.cmp('J(x)==|cof DPhi nu| J(g)', 'boundary(trimmed domain)', V['Jx'], measure_ratio(D, normalize(cov)) * V['Jg'])
+    nfaces, nref = box_faces(G, sc.b.lo, sc.b.hi)
+    one = nfaces == 1
+    if one.any():
+        ex = numpy.linalg.solve(numpy.swapaxes(D[one], 1, 2), nref[one][..., None])[..., 0]
+        ck.cmp('n==exact outward normal (cofactor rule on box face)', 'boundary(trimmed domain)', N[one], normalize(ex))
+    tr = nfaces == 0
+    if tr.any():
+        res.count('points/on trimmed facets', int(tr.sum()))
+        gphi = peval(pgrad(numpy.array([phi], dtype=object), n)[0], G[tr])        # grad_g phi
+        c = -numpy.einsum('kn,kn->k', cov[tr], gphi) / (numpy.linalg.norm(cov[tr], axis=1) * numpy.linalg.norm(gphi, axis=1) + 1e-300)
+        if phi.degree() == 1 and sc.b.affine:
+            # level set linear in the element coordinates: the vertex interpolation used by trim is exact, the trimmed
+            # facets lie on the plane up to the 2^-8 binning of the cut positions, so the sign is decidable
+            res.count('ident/trimmed normal points towards decreasing level set')
+            res.count('ident_by_sample/boundary/trimmed normal points towards decreasing level set')
+            res.count('comparisons')
+            res.count('values_compared', int(tr.sum()))
+            ck.nontrivial = True
+            amb = numpy.abs(c) <= .2
+            if amb.any():
+                res.count('trimmed/ambiguous orientation points (|cos|<=.2, not judged)', int(amb.sum()))
+            if (c < -.2).any():
+                ck.failed = True
+                res.violation('trimmed normal points towards decreasing level set', case,
+                              f'[boundary(trimmed domain)] {int((c < -.2).sum())}/{len(c)} points on trimmed facets have an inward normal; min cos={float(c.min()):.3f}')
+        else:
+            # curved cut: the polytopal approximation may legitimately disagree with the true level set where it is
+            # under-resolved; recorded, not judged (the divergence theorem below decides exactly)
+            res.count('trimmed/curved cut: points agreeing with level-set gradient', int((c > 0).sum()))
+            res.count('trimmed/curved cut: points disagreeing with level-set gradient (not judged)', int((c <= 0).sum()))
+
+    # ---- divergence theorem over the same trimmed topology (exact for polynomial F)
+    dF = pgrad(F, n)
+    geomdeg = pmaxdegree(sc.Phi)
+    bdeg = max(0, pmaxdegree(pcompose(F, list(sc.Phi)))) + (n - 1) * max(0, geomdeg - 1)
+    divF = sum((dF[i, i] for i in range(n)), Poly(n))
+    detD = pdet(sc.DPhi)
+    vdeg = max(integral_degree(divF.compose(list(sc.Phi)) * detD, 0), integral_degree(detD, 0))
+    vlim, flim = (TRI_MAXDEG, 10**6) if n == 2 else (TET_MAXDEG, TRI_MAXDEG)
+    if not sc.b.affine:
+        vdeg, bdeg = vdeg + n, bdeg + n - 1
+    if vdeg > vlim or bdeg > flim:
+        res.count('skipped/trimmed integrand beyond available Gauss degree')
+        return
+    res.maximum('max_gauss_degree', max(vdeg, bdeg))
+    basis = None
+    try:
+        basis = topo.basis('discont', degree=0)
+        w = basis @ numpy.random.default_rng(case['wseed']).uniform(.5, 2., len(basis))
+    except (NotImplementedError, ValueError, AssertionError) as e:
+        res.count(f'refusal/discont basis: {type(e).__name__}')
+    vf = [function.div(Fx, x) * Jx, Jx] + ([w * function.div(Fx, x) * Jx] if basis is not None else [])
+    bf = [(Fx @ nrm) * Jx, Jx] + ([w * (Fx @ nrm) * Jx] if basis is not None else [])
+    VI = topo.integrate(vf, degree=vdeg)
+    BI = bnd.integrate(bf, degree=bdeg)
+    Xp = peval(sc.Phi, box_probe_points(sc.b.lo, sc.b.hi))
+    Fmag, dFmag = float(pabs(F, Xp).max()), float(pabs(dF, Xp).max())
+    dscale = max(1., Fmag * abs(BI[1]), abs(VI[1]) * dFmag * n)
+    ck.cmp('divergence theorem on trimmed domain: boundary integral == volume integral', 'boundary(trimmed domain)', [BI[0]], [VI[0]], scale=dscale)
+    detsign = 1. if detD(((sc.b.lo + sc.b.hi) / 2)[None])[0] > 0 else -1.
+    ck.positive('int J over trimmed domain > 0', 'interior', [VI[1]], [abs(float((detD * detsign).integrate_box(sc.b.lo, sc.b.hi)))])
+    if basis is not None:
+        ifc = topo.interfaces
+        t2 = 0.
+        if len(ifc):
+            t2, isz = ifc.integrate([function.jump(w * Fx) @ nrm * Jx, Jx], degree=bdeg)
+            dscale = max(dscale, Fmag * abs(isz) * 2)
+        ck.cmp('element-wise divergence theorem on trimmed domain', 'interface' if len(ifc) else 'boundary', [BI[2] - t2 - VI[2]], [0.], scale=dscale * 2)
+
+
 def run_product(case, ck):
     from nutils import function
     res = ck.res
@@ -1104,14 +1299,15 @@ def finalize(m, tier, seed):
                n_triples=len(m.sets.get('triples', ())), triples_sample=sorted(m.sets.get('triples', ()))[:40],
                refusals=pre('refusal/'), skipped=pre('skipped/'), empty=pre('empty/'), cases_refused=c.get('cases_refused', 0),
                marginal=c.get('marginal', 0), marginal_by_identity=pre('marginal/'), harness=pre('harness/'),
-               facets_with_spanning_tangents=c.get('facets_with_spanning_tangents', 0), exterior_normal_sign=pre('exterior_normal_sign/'),
+               trimmed=pre('trimmed/'), facets_with_spanning_tangents=c.get('facets_with_spanning_tangents', 0), exterior_normal_sign=pre('exterior_normal_sign/'),
                max_gauss_degree=m.maxima.get('max_gauss_degree'), cases_skipped_deadline=c.get('cases_skipped_deadline', 0))
     inc = None
     need = ['grad', 'div', 'curl', 'laplace', 'symgrad', 'hessian', '|n|=1', 'n.t=0', 'n+opposite(n)=0', 'jump(x)=0',
             'n==exact outward normal (cofactor rule on box face)', 'n points out of its element (centroid test)',
             'int f(x) J == closed form', 'divergence theorem: boundary integral == closed form of int div F',
             'element-wise divergence theorem (boundary - interface jumps - volume == 0)', 'n.surfgrad f=0', 'surfgrad f==(I-nn^T) p\'(x)',
-            'grad (spaces=)', 'per-space divergence theorem: boundary integral == closed form']
+            'grad (spaces=)', 'per-space divergence theorem: boundary integral == closed form',
+            'trimmed normal points towards decreasing level set', 'divergence theorem on trimmed domain: boundary integral == volume integral']
     missing = [k for k in need if not cov['identities_checked'].get(k)]
     if cov['evaluations'] < 0.5 * NCASES[tier]:
         inc = f"only {cov['evaluations']} of {NCASES[tier]} cases ran before the deadline"
